@@ -35,6 +35,14 @@ void* iglue_instantiate(InstEnv* env) {
     g_env = NULL;
     return i;
 }
+void* iglue_new_child(void* parent, InstEnv* env) {
+    wasmModuleInstance* p = (wasmModuleInstance*)parent;
+    void* c;
+    g_env = env;
+    c = p->newChild(p);
+    g_env = NULL;
+    return c;
+}
 unsigned char* iglue_mem_data(void* inst) {
 #if MEM_IMPORTED
     return ((instInstance*)inst)->env__mem->data;
